@@ -447,8 +447,53 @@ Definition cfg_split (args : list (list Z)) : option (Z * list (list Z)) :=
   | [c; sd; op] :: rest => if c =? 20 then Some (sd, [op] :: rest) else None
   | _ => None
   end.
-Definition run_case (args : list (list Z)) : list Z :=
+Definition run_cfg (args : list (list Z)) : list Z :=
   match cfg_split args with
   | Some (sd, inner) => if (2 <=? sd) && (sd <=? 8) then run_base inner else [ST_BADCASE]
   | None => run_base args
+  end.
+
+(* ---- the environment of a lookup ----
+   FIRST ACCESS.  The listing does not count the records itself: ptt.LoadGeneralArticles / FindArticleStartIdx take the
+   board's article count from shared memory, and when it is not there yet (0) cache.GetBTotalWithRetry -> SetBTotal
+   computes it as (size of the index file) / (record size).  [fsize es slack]: the size of a file holding the records es
+   and `slack` < 128 bytes of an incomplete record after them.  [bbs_page_at es total ...] is bbs.LoadGeneralArticles on
+   a board whose cached count is `total`; [bbs_page_first] is the first access.  WHICH file size the code reads (the file
+   the path resolves to, through symbolic links) is the operating system's answer and is not modelled. *)
+Definition REC_SZ : Z := 128.       (* ptttype.FILE_HEADER_RAW_SZ *)
+Definition fsize (es : list entry) (slack : Z) : Z := REC_SZ * lenZ es + slack.
+Definition btotal_of_size (sz : Z) : Z := sz / REC_SZ.
+Definition bbs_page_at (es : list entry) (total : Z) (cur : option (Z * Z)) (k : nat) (desc : bool)
+  : fr (list (Z * entry) * option (Z * entry)) :=
+  if total =? 0 then match cur with None => FOk ([], None) | Some _ => FErr E_NORECORD end
+  else fbind (match cur with
+              | None => FOk (if desc then total else 1)
+              | Some (T, nm) => find es total T (Some nm) desc
+              end) (fun s => load_page es s k desc).
+Definition bbs_page_first (es : list entry) (slack : Z) (cur : option (Z * Z)) (k : nat) (desc : bool) :=
+  bbs_page_at es (btotal_of_size (fsize es slack)) cur k desc.
+
+(* first group [30; layout; op]: op on an index reached through path layout 0..4 (regular file, symbolic links, a hard
+   link) with the article count obtained by first access; [31; mode; op]: op while another operation of the same
+   process (mode 1..3: an append, a delete, another lookup - none has written anything yet; 4: the same lookup in
+   several goroutines) is inside the same index.  Neither is an input of lookup and paging: the entries alone decide.
+   Op 7 under 30 goes through the first-access count. *)
+Definition env_split (args : list (list Z)) : option (Z * list (list Z)) :=
+  match args with
+  | [c; v; op] :: rest =>
+      if (c =? 30) && (0 <=? v) && (v <=? 4) then Some (30, [op] :: rest)
+      else if (c =? 31) && (1 <=? v) && (v <=? 4) then Some (31, [op] :: rest)
+      else None
+  | _ => None
+  end.
+Definition run_first (args : list (list Z)) : list Z :=
+  match args with
+  | [[7]; es; [hascur; T; nm; k; desc]] =>
+      wire_fr page_wire (bbs_page_first (entries_of_wire es) 0 (if hascur =? 0 then None else Some (T, nm)) (Z.to_nat k) (negb (desc =? 0)))
+  | _ => run_base args
+  end.
+Definition run_case (args : list (list Z)) : list Z :=
+  match env_split args with
+  | Some (c, inner) => if c =? 30 then run_first inner else run_base inner
+  | None => run_cfg args
   end.
